@@ -197,6 +197,7 @@ def gen_project(rng, nclasses: int, generic_anywhere: bool = False, h=None) -> D
     own = {c: rng.random() < 0.5 for c in ids}
     doc = {c: own[c] and rng.random() < 0.5 for c in ids}
     bases: Dict[int, List[int]] = {}
+    subs: Dict[int, List[int]] = {}
     mods: Dict[int, List[str]] = {m: ["from typing import Generic, TypeVar\n", "T = TypeVar('T')\n"] for m in range(nmod)}
     imported: Dict[int, Dict[int, str]] = {m: {} for m in range(nmod)}   # module -> class id -> local spelling
     for c, b in zip(ids, h):
@@ -227,21 +228,25 @@ def gen_project(rng, nclasses: int, generic_anywhere: bool = False, h=None) -> D
             exprs.insert(pos, "Generic[T]")
             blist.insert(pos, GENERIC)
         bases[c] = blist
+        subs[c] = [1 if e.endswith("]") else 0 for e in exprs]
         head = "class C%d%s:\n" % (c, "(%s)" % ", ".join(exprs) if exprs else "")
         if own[c]:
             body = "    def m(self):\n        %s\n" % ("'''doc of C%d'''" % c if doc[c] else "pass")
         else:
             body = "    pass\n"
         mods[m].append(head + body)
-    return {"n": nclasses, "bases": {str(c): bases[c] for c in ids}, "modules": {"m%d" % m: "".join(mods[m]) for m in range(nmod)},
+    return {"n": nclasses, "bases": {str(c): bases[c] for c in ids}, "subs": {str(c): subs[c] for c in ids}, "modules": {"m%d" % m: "".join(mods[m]) for m in range(nmod)},
             "own": [c for c in ids if own[c]], "doc": [c for c in ids if doc[c]],
             "order": rng.sample(["m%d" % m for m in range(nmod)], nmod)}
 
 
 def project_tokens(p) -> Tuple[str, str, str]:
+    """H and SUB (which bases are written as subscripts) as one string `H SUB`, OWN, DOC"""
     ids = sorted(int(c) for c in p["bases"])
     h = [[], []] + [p["bases"][str(c)] for c in ids]
-    return (ltoken(h), ",".join(map(str, p["own"])) or "-", ",".join(map(str, p["doc"])) or "-")
+    subs = p.get("subs") or {str(c): [1 if b == GENERIC else 0 for b in p["bases"][str(c)]] for c in ids}
+    sb = [[], []] + [subs[str(c)] for c in ids]
+    return (ltoken(h) + " " + ltoken(sb), ",".join(map(str, p["own"])) or "-", ",".join(map(str, p["doc"])) or "-")
 
 
 def pd_full(p, order: Optional[Sequence[str]] = None) -> Tuple[Dict[int, Dict[str, Any]], Optional[str]]:
@@ -294,12 +299,13 @@ def pd_full(p, order: Optional[Sequence[str]] = None) -> Tuple[Dict[int, Dict[st
                 triples.append("%d,%d,%d" % (si, ni, cidx[r]))
 
     def cell(b) -> str:
-        return "0" if b is None or b not in cidx else str(cidx[b] + 1)
+        return "0" if not isinstance(b, model.Class) or b not in cidx else str(cidx[b] + 1)
     res[-1] = {"second": (
-        "mro second %s %s %s %s %s" % (
+        "mro second %s %s %s %s %s %s" % (
             ",".join(str(scopes.index(o.parent)) for o in allcls) or "-",
             ";".join(",".join(str(names[nm]) for nm, _ in o.rawbases) or "-" for o in allcls) or "-",
             ";".join(",".join(cell(b) for b in o._initialbaseobjects) or "-" for o in allcls) or "-",
+            ";".join(",".join(cell(system.objForFullName(nm)) for nm in o._initialbases) or "-" for o in allcls) or "-",
             ";".join(triples) or "-",
             ",".join(str(i) for i in range(len(allcls))) or "-"),
         "|".join("N" if o._finalbaseobjects is None else (",".join(cell(b) for b in o._finalbaseobjects) or "-")
@@ -444,6 +450,7 @@ def gen_cyclic(rng, nclasses: int, h=None, spread: bool = False) -> Dict[str, An
                     modimp[m][o] = "%s.m%d" % (PKG, o)
     imported: Dict[int, Dict[int, str]] = {m: {} for m in range(nmod)}
     bases: Dict[int, List[int]] = {}
+    subs: Dict[int, List[int]] = {}
     for c, b in zip(ids, h):
         m = modof[c]
         exprs = []
@@ -471,6 +478,7 @@ def gen_cyclic(rng, nclasses: int, h=None, spread: bool = False) -> Dict[str, An
             exprs.append("Generic[T]")
             blist.append(GENERIC)
         bases[c] = blist
+        subs[c] = [1 if e.endswith("]") else 0 for e in exprs]
         head = "class C%d%s:\n" % (c, "(%s)" % ", ".join(exprs) if exprs else "")
         if own[c]:
             text = "    def m(self):\n        %s\n" % ("'''doc of C%d'''" % c if doc[c] else "pass")
@@ -479,7 +487,7 @@ def gen_cyclic(rng, nclasses: int, h=None, spread: bool = False) -> Dict[str, An
         body[m].append(head + text)
     mods = {"m%d" % m: "".join(tops[m]) + "from typing import Generic, TypeVar\nT = TypeVar('T')\n" + "".join(body[m])
             for m in range(nmod)}
-    return {"n": nclasses, "package": PKG, "bases": {str(c): bases[c] for c in ids}, "modules": mods,
+    return {"n": nclasses, "package": PKG, "bases": {str(c): bases[c] for c in ids}, "subs": {str(c): subs[c] for c in ids}, "modules": mods,
             "own": [c for c in ids if own[c]], "doc": [c for c in ids if doc[c]], "order": sorted(mods)}
 
 
@@ -704,7 +712,7 @@ def run(ctx: Ctx) -> None:
         a, b = full_lines(p, pd, py)
         freq.append("mro full %s %d %s %s" % (h, GENERIC, own, doc))
         fout.append(a)
-        greq.append("mro pyfull %s %s %s" % (h, own, doc))
+        greq.append("mro pyfull %s %d %s %s" % (h, GENERIC, own, doc))
         gout.append(b)
         fpay.append({"project": p})
         nontriv = any(len(b_) >= 2 for b_ in p["bases"].values())
@@ -765,8 +773,9 @@ def run(ctx: Ctx) -> None:
     ctx.compare("System~Mro(import cycles, all orders)", creq, cout, cpay)
     ctx.compare("init_finalbaseobjects~Mro.secondPass", sreq, sout, spay)
 
-    # ---- probe: Generic[T] at any position among the bases (typing drops it when a later base is subscripted);
-    #      outside the Lean models, direct oracle only
+    # ---- Generic[T] at any position among the bases (typing drops it when a later base is subscripted; so does
+    #      compute_mro.getbases since commit 749fc3a): models (localBases / mroEntries) and direct oracle
+    areq, aout, breq, bout, apay = [], [], [], [], []
     for k in range(150 if ctx.quick else 2000):
         p = gen_project(ctx.rng, ctx.rng.randint(2, 6), generic_anywhere=True)
         pd, crash = pd_full(p)
@@ -776,7 +785,17 @@ def run(ctx: Ctx) -> None:
         py = py_full(p)
         # Python's own bases after __mro_entries__ decide what the hierarchy is here
         ctx.count("generic-anywhere:projects")
+        h, own, doc = project_tokens(p)
+        a, b = full_lines(p, pd, py)
+        areq.append("mro full %s %d %s %s" % (h, GENERIC, own, doc))
+        aout.append(a)
+        breq.append("mro pyfull %s %d %s %s" % (h, GENERIC, own, doc))
+        bout.append(b)
+        apay.append({"project": p})
+        ctx.case("generic-anywhere " + h + own + doc, any(len(b_) >= 2 for b_ in p["bases"].values()))
         full_oracle(ctx, p, pd, py, "generic-anywhere")
+    ctx.compare("System~Mro(Generic[T] anywhere)", areq, aout, apay)
+    ctx.compare("exec~PyMro(Generic[T] anywhere)", breq, bout, apay)
 
 
 def replay(ctx: Ctx, obj) -> int:
@@ -831,7 +850,7 @@ def replay(ctx: Ctx, obj) -> int:
         print("cpython  :", b)
         try:
             print("Mro      :", ctx.driver.run(["mro full %s %d %s %s" % (h, GENERIC, own, doc)])[0])
-            print("PyMro    :", ctx.driver.run(["mro pyfull %s %s %s" % (h, own, doc)])[0])
+            print("PyMro    :", ctx.driver.run(["mro pyfull %s %d %s %s" % (h, GENERIC, own, doc)])[0])
         except Exception as e:
             print("model    : unavailable", e)
         full_oracle(ctx, p, pd, py, "generic-anywhere" if obj.get("signature", "").startswith("generic-anywhere") else "full")
